@@ -108,8 +108,11 @@ def finish(res, tier, t0, repo, checker_cmd):
         print('KNOWN-FINDING: property=%s %s' % (res.prop, k.get('what') or v.line()))
     for i, (v, _) in enumerate(new):
         rp = os.path.join(evdir, 'replay', '%s-%d.json' % (res.prop, i))
-        with open(rp, 'w') as fh:
-            json.dump(v.to_json(), fh, indent=1, default=str)
+        if os.environ.get('CAPCHECK_NO_EVIDENCE'):
+            rp = '/dev/null'
+        else:
+            with open(rp, 'w') as fh:
+                json.dump(v.to_json(), fh, indent=1, default=str)
         print('VIOLATION property=%s replay=%s' % (res.prop, rp))
         print('  ' + v.line())
         code = 1
@@ -141,10 +144,11 @@ def finish(res, tier, t0, repo, checker_cmd):
     ev = dict(property_id=res.prop, tier=tier, seed=int(os.environ.get('VERIF_SEED', '0') or 0), level=res.level,
               coverage=cov, assumptions=res.assumptions, wall_s=round(time.time() - t0, 3), violations=len(new))
     path = os.path.join(evdir, '%s.json' % res.prop)
-    tmp = path + '.%d.tmp' % os.getpid()
-    with open(tmp, 'w') as fh:
-        json.dump(ev, fh, indent=1, default=str)
-    os.replace(tmp, path)
+    if not os.environ.get('CAPCHECK_NO_EVIDENCE'):
+        tmp = path + '.%d.tmp' % os.getpid()
+        with open(tmp, 'w') as fh:
+            json.dump(ev, fh, indent=1, default=str)
+        os.replace(tmp, path)
     verdict = {0: 'PASS', 1: 'VIOLATION', 2: 'ANALYSIS-INCOMPLETE'}[code]
     print('%s property=%s tier=%s obligations=%d discharged=%d new_violations=%d known=%d wall=%.1fs'
           % (verdict, res.prop, tier, res.obligations, res.discharged, len(new), len(listed), time.time() - t0))
